@@ -224,6 +224,16 @@ func newTimer(d time.Duration, period time.Duration, fn func()) *TTimer {
 			tm.bg = true
 		}
 	}
+	for _, b := range s.opt.BgTimers {
+		if strings.Contains(tm.site, b) {
+			tm.bg = true
+		}
+	}
+	if d == 0 && fn == nil && period == 0 {
+		// NewTimer(0) (the repository's emptyTimer idiom): fires at once, no separate transition
+		tm.active = false
+		chanOf(tm.ch).buf = append(chanOf(tm.ch).buf, reflect.ValueOf(base.Add(s.now)))
+	}
 	s.nextTm++
 	s.timers = append(s.timers, tm)
 	// drop dead one-shot timers now and then
